@@ -29,9 +29,18 @@ def analyse(m, cases, out, mout, sites, rng):
             continue
         twin = [['a', n] for n in remaining]
         for p in matcher.probes_for(m.g, c['type'], rng):
-            pairs.append((ci, oi, p, twin))
-    A = [{'type': cases[ci]['type'], 'ops': cases[ci]['ops'][:oi + 1] + [p]} for ci, oi, p, t in pairs]
-    B = [{'type': cases[ci]['type'], 'ops': t + [p]} for ci, oi, p, t in pairs]
+            pairs.append((ci, oi, [p], twin))
+        # the history's own continuation (its next adds, up to three): every prefix of it is a probe
+        cont = []
+        for o in c['ops'][oi + 1:oi + 6]:
+            if o[0] != 'a':
+                break
+            cont.append(o)
+            pairs.append((ci, oi, list(cont), twin))
+            if len(cont) == 3:
+                break
+    A = [{'type': cases[ci]['type'], 'ops': cases[ci]['ops'][:oi + 1] + p} for ci, oi, p, t in pairs]
+    B = [{'type': cases[ci]['type'], 'ops': t + p} for ci, oi, p, t in pairs]
     ia, ma = matcher.run_both(m, A)
     ib, mb = matcher.run_both(m, B)
     res = []
@@ -40,7 +49,7 @@ def analyse(m, cases, out, mout, sites, rng):
         if (ci, oi) in seen:
             continue
         sa, sb = matcher.summary(A[k], ia[k]), matcher.summary(B[k], ib[k])
-        twin_rejected = any(hist.norm_st(o['st']) != 'ok' for o in ib[k][:-1])
+        twin_rejected = any(hist.norm_st(o['st']) != 'ok' for o in ib[k][:len(t)])
         if sa != sb or twin_rejected:
             msa, msb = matcher.summary(A[k], ma[k]), matcher.summary(B[k], mb[k])
             seen.add((ci, oi))
